@@ -91,7 +91,7 @@ def cases(seed, tier):
                     'tx_orders': 2, 'pseed': prng.randint(0, 10 ** 6)})
     for i in range(n_rev):
         prng = random.Random(rng.getrandbits(64))
-        P = gjoins.gen_reverse(prng)
+        P = gjoins.gen_reverse(prng, p_defaults=0.5)
         out.append({'kind': 'reverse', 'program': P,
                     'outcomes': gdirect.gen_outcomes(prng, P, p_fail=0.15),
                     'uuid_seed': prng.randint(0, 10 ** 6),
@@ -137,7 +137,37 @@ def run_case(case):
                                   'seed': prng.randint(0, 10 ** 6)})
                 if target:
                     c['start'] = {'params': {'task_name': target}}
-                run = ec.execute(c, extra_monitors=[JoinLiveness()])
+                rr = {}
+
+                def mid_rerun(w, rr=rr):
+                    # an inbound task of a join failed and routed to it
+                    # (on-error / on-complete); the join still waits for
+                    # other branches; the operator reruns the failed task
+                    # now: the join must wait for it again
+                    if rr.get('done') or not w.pending_async:
+                        return
+                    rows = w.rec.rows
+                    waiting = set(t['name'] for t in rows['task'].values()
+                                  if t['state'] == 'WAITING')
+                    for t in sorted(rows['task'].values(),
+                                    key=lambda r: r['id']):
+                        nxt = [x[0] for x in (t.j('next_tasks') or [])]
+                        if t['state'] == 'ERROR' and set(nxt) & waiting:
+                            rr['done'] = t['name']
+                            w.outcome_rules.insert(0, {
+                                't': t['name'], 'outcome': ['ok', 'again']})
+                            w.op_rerun(t['id'], reset=True)
+                            return
+
+                def hook(w):
+                    if case['kind'] == 'shape' and k == 1:
+                        w.on_boundary = mid_rerun
+                run = ec.execute(c, extra_monitors=[JoinLiveness()],
+                                 setup_hook=hook)
+                if rr.get('done'):
+                    res['monitor_evaluations']['mid-run-rerun'] = \
+                        res['monitor_evaluations'].get('mid-run-rerun',
+                                                       0) + 1
                 res['executions'] += 1
                 ec.merge_counts(res['events'], run.events)
                 ec.merge_counts(res['monitor_evaluations'], run.mon_evals)
